@@ -53,6 +53,46 @@ pub fn check_c06(c: &Case) -> CaseResult {
     r
 }
 
+/// C07 precision on one emitted binary: (signature, detail) for everything unreachable in it
+pub fn precision_findings(out: &[u8]) -> Vec<(String, String)> {
+    let mut fs = vec![];
+    let b = match decode(out) {
+        Ok(b) => b,
+        Err(_) => return fs,
+    };
+    let rs = reach(&b);
+    for (sp, name) in [(Space::Func, "function"), (Space::Table, "table"), (Space::Global, "global"), (Space::Elem, "element-segment"), (Space::Data, "data-segment")] {
+        let v = rs.get(sp);
+        let dead: Vec<usize> = v.iter().enumerate().filter(|(_, x)| !**x).map(|(i, _)| i).collect();
+        if !dead.is_empty() {
+            let imported = match sp {
+                Space::Func => dead.iter().any(|i| b.funcs[*i].import.is_some()),
+                Space::Table => dead.iter().any(|i| b.tables[*i].import.is_some()),
+                Space::Global => dead.iter().any(|i| b.globals[*i].import.is_some()),
+                _ => false,
+            };
+            fs.push((
+                format!("gc-kept-unreachable:{}{}", if imported { "imported-" } else { "" }, name),
+                format!("after gc the output still contains {} {:?}, unreachable from the roots", name, dead),
+            ));
+        }
+    }
+    // memories: tolerated residue of one memory when a data segment is retained and no memory is reachable
+    let dead_m: Vec<usize> = rs.mems.iter().enumerate().filter(|(_, x)| !**x).map(|(i, _)| i).collect();
+    if !dead_m.is_empty() {
+        let any_reachable = rs.mems.iter().any(|x| *x);
+        let tolerated = dead_m.len() == 1 && !any_reachable && !b.datas.is_empty();
+        if !tolerated {
+            fs.push(("gc-kept-unreachable:memory".into(), format!("after gc the output still contains unreachable memories {:?}", dead_m)));
+        }
+    }
+    let dead_t: Vec<usize> = rs.types.iter().enumerate().filter(|(_, x)| !**x).map(|(i, _)| i).collect();
+    if !dead_t.is_empty() {
+        fs.push(("gc-kept-unreachable:type".into(), format!("after gc the output still contains unused types {:?}", dead_t)));
+    }
+    fs
+}
+
 /// C07 precision on the emitted binary
 pub fn check_c07_precision(c: &Case) -> CaseResult {
     let mut r = CaseResult::default();
@@ -66,42 +106,9 @@ pub fn check_c07_precision(c: &Case) -> CaseResult {
     };
     r.transitions = 3;
     r.digests.push(wmodel::fnv(&out));
-    let b = match decode(&out) {
-        Ok(b) => b,
-        Err(_) => return r,
-    };
-    let rs = reach(&b);
     r.nontrivial = out.len() < c.wasm.len();
-    for (sp, name) in [(Space::Func, "function"), (Space::Table, "table"), (Space::Global, "global"), (Space::Elem, "element-segment"), (Space::Data, "data-segment")] {
-        let v = rs.get(sp);
-        let dead: Vec<usize> = v.iter().enumerate().filter(|(_, x)| !**x).map(|(i, _)| i).collect();
-        if !dead.is_empty() {
-            let imported = match sp {
-                Space::Func => dead.iter().any(|i| b.funcs[*i].import.is_some()),
-                Space::Table => dead.iter().any(|i| b.tables[*i].import.is_some()),
-                Space::Global => dead.iter().any(|i| b.globals[*i].import.is_some()),
-                _ => false,
-            };
-            r.violations.push(Violation::new(
-                "C07",
-                format!("gc-kept-unreachable:{}{}", if imported { "imported-" } else { "" }, name),
-                format!("after gc the output still contains {} {:?}, unreachable from the roots", name, dead),
-                c,
-            ));
-        }
-    }
-    // memories: tolerated residue of one memory when a data segment is retained and no memory is reachable
-    let dead_m: Vec<usize> = rs.mems.iter().enumerate().filter(|(_, x)| !**x).map(|(i, _)| i).collect();
-    if !dead_m.is_empty() {
-        let any_reachable = rs.mems.iter().any(|x| *x);
-        let tolerated = dead_m.len() == 1 && !any_reachable && !b.datas.is_empty();
-        if !tolerated {
-            r.violations.push(Violation::new("C07", "gc-kept-unreachable:memory", format!("after gc the output still contains unreachable memories {:?}", dead_m), c));
-        }
-    }
-    let dead_t: Vec<usize> = rs.types.iter().enumerate().filter(|(_, x)| !**x).map(|(i, _)| i).collect();
-    if !dead_t.is_empty() {
-        r.violations.push(Violation::new("C07", "gc-kept-unreachable:type", format!("after gc the output still contains unused types {:?}", dead_t), c));
+    for (sig, detail) in precision_findings(&out) {
+        r.violations.push(Violation::new("C07", sig, detail, c));
     }
     r
 }
@@ -222,6 +229,9 @@ fn recheck(prop: &'static str, c: &Case) -> Vec<Violation> {
         }
         return check_c06(c).violations;
     }
+    if c.cfg.get("edits").is_some() {
+        return crate::props::edits::recheck_as("C07", c);
+    }
     if c.cfg.get("idem").is_some() {
         let s = GcSubject { wasm: &c.wasm };
         let h = hist_of(&c.cfg);
@@ -270,10 +280,12 @@ pub fn run(prop: &'static str, args: &Args) -> i32 {
             viol.extend(r.1);
         }
         ev.extra.insert("states_merged_by_canonicalisation".into(), json!(merged));
+        viol.extend(crate::props::edits::run_model_as("C07", args, &mut ev));
         ev.rule = format!(
             "precision: every member of reach(k)/struct/fixtures/funcs/stateful through parse; gc; emit, then an independent reachability analysis (roots and edges from the property text) on the *emitted* \
              binary: nothing unreachable may remain (one memory tolerated when only data segments need it). idempotence: explicit-state exploration of all histories over {{gc, emit, reparse}} up to depth {}; \
-             in every state whose history contains gc, one more gc must not change the emitted bytes. non-trivial = gc shrank the module",
+             in every state whose history contains gc, one more gc must not change the emitted bytes. Plus the edit model (props/edits.rs): in every state whose edit history ends in gc the emitted binary \
+             must hold nothing unreachable and one more gc must change nothing (functions, types and segments made through the builder API are covered this way). non-trivial = gc shrank the module",
             depth
         );
     }
